@@ -320,7 +320,7 @@ def run(ctx):
     samples = [{"scenario": lines[i], "history_A": res[i][2][:400]} for i in (ok_i[:1] + ok_i[len(FIXED) + 1:len(FIXED) + 3])]
     ctx.cover(evaluations=len(hists), distinct_nontrivial=len(nontriv), samples=samples,
               rule="%d fixed scenarios (one or more per transition of the model) + %d seeded random scenarios (2/3 scripted peer with "
-                   "injected read/write errors, 1/3 two real Connections over net.Pipe), each under 3 schedules (Gosched/sleep "
+                   "injected read/write errors, 1/3 two real Connections with the HeaderFramer over an in-memory buffered duplex stream), each under 3 schedules (Gosched/sleep "
                    "injection levels 0,2,6; %d scenario runs), harness built with -race; every recorded history (%d = evaluations, both sides "
                    "of the real pairs) replayed through the extracted step function; non-trivial = distinct history with >= 8 events and at least one call or "
                    "incoming request. Not generated (contract of the Handler, stated in the model): Respond before the handler returned "
